@@ -132,6 +132,7 @@ func main() {
 	wg.Wait()
 	pprof.StopCPUProfile()
 	res.HitN("event-queries-with-events", int(nonEmptyEventAnswers.Load()))
+	res.HitN("filtered-event-queries-with-events", int(nonEmptyFilteredAnswers.Load()))
 	lib.Finish(f, res)
 }
 
